@@ -7,6 +7,7 @@ import (
 	"encoding/hex"
 	"fmt"
 	"math/big"
+	"os"
 	"strings"
 
 	"github.com/ethereum/go-ethereum/common"
@@ -25,7 +26,12 @@ func (w *World) isContractPath(tx *ctypes.Trx) bool {
 		return false
 	}
 	if w.EVM != nil {
-		return w.EVM.hasCode(tx.To)
+		if w.EVM.hasCode(tx.To) {
+			return true
+		}
+		// ex-contract: a plain account for the EVM, while the application may still route transfers to it through
+		// the EVM (it keeps the native code marker). Both are a plain value transfer; see ApplyTx for the charge.
+		return w.Dead[ak(tx.To)]
 	}
 	rc, ok := w.Accts[ak(tx.To)]
 	return ok && rc.Code != nil
@@ -76,6 +82,16 @@ func (w *World) applyEVMTx(tx *ctypes.Trx, raw []byte, res TxResult, out *TxOutc
 	}
 	ref := w.EVM.Exec(w, tx, hash, w.txIdx, w.curH, w.cur.Proposer)
 	w.Feat["evm_tx_compared"]++
+	if os.Getenv("VERIF_TRACE") != "" {
+		fmt.Printf("TRACE h=%d tx %x from=%x to=%x amt=%s gas=%d: app code=%d gasUsed=%d | ref failed=%v err=%q gasUsed=%d created=%x\n", w.curH, hash[:4], tx.From[:4], tx.To[:4], tx.Amount.Dec(), tx.Gas, res.Code, res.GasUsed, ref.Failed, ref.Err, ref.GasUsed, ref.Created)
+		if a := os.Getenv("VERIF_TRACE_ADDR"); a != "" {
+			for k, ac := range w.Accts {
+				if strings.HasPrefix(k, a) {
+					fmt.Printf("TRACE    model %s bal=%s nonce=%d dead=%v universe=%v refbal=%s\n", k[:8], ac.Bal.Dec(), ac.Nonce, w.Dead[k], w.EVM.universe[k], w.EVM.db.GetBalance(common.BytesToAddress(unhx(k))))
+				}
+			}
+		}
+	}
 	if ref.Failed {
 		w.Feat["evm_ref_failed"]++
 		if res.Code == 0 {
